@@ -32,6 +32,12 @@ func checkC07(c *an.Ctx) {
 	exitCodeProvenance(c, r, "C07.1")
 	deferredReset(c, r, "C07.2")
 	errorChainToMain(c, r, "C07.3")
+	// the link of the chain that is not a return: a failed stage's error is recorded as the run's error
+	// (the stage-body table and the error report of C02.2 / C02.4, obligations of the chain here)
+	if s := resolveSched(c, "C07.3"); s.ok {
+		stageBodyTable(c, s, "C07.3")
+		errorReport(c, s, "C07.3")
+	}
 	sequentialTargets(c, r, "C07.4")
 }
 
